@@ -194,8 +194,8 @@ theorem filterMap_range_eq (f : Nat → Option Nat) (b w : Nat) : ∀ M, (∀ j,
 
 /-- `(b..b+x).step_by(w)` yields `b, b+w, …` — `⌈x / w⌉` items -/
 theorem stepBy_range' (b x w : Nat) (hw : 0 < w) :
-    Rs.stepBy (List.range' b x) w = Res.ok (List.range' b ((x + w - 1) / w) w) := by
-  rw [Rs.stepBy_ok hw]
+    Rs.stepByIdx (List.range' b x) w = Res.ok (List.range' b ((x + w - 1) / w) w) := by
+  rw [Rs.stepByIdx_ok hw]
   congr 1
   simp only [List.length_range']
   apply filterMap_range_eq
